@@ -4,7 +4,7 @@
    mons: the property's predicates on the implementation's own answers (text only, no use of
          the reference normaliser), on both streams. *)
 From Coq Require Import List Ascii String NArith Bool.
-From ZenoV Require Import Lib.Hex Lib.Harness Url.Escape Url.Query Url.RefUrl Url.Resolve.
+From ZenoV Require Import Lib.Hex Lib.Harness Url.Escape Url.Query Url.RefUrl Url.Resolve Url.UrlText.
 Import ListNotations.
 Open Scope char_scope.
 
@@ -91,45 +91,6 @@ Definition mon_idem (c : ucase) : bool :=
   | _ => true
   end.
 
-(* text up to the first byte satisfying [stop], and the rest *)
-Fixpoint span_until (stop : ascii -> bool) (s : bytes) : bytes * bytes :=
-  match s with
-  | [] => ([], [])
-  | c :: r => if stop c then ([], s) else let (a, b) := span_until stop r in (c :: a, b)
-  end.
-
-(* part after the last occurrence of [d] (the whole text when there is none) *)
-Definition after_last (d : ascii) (s : bytes) : bytes := last (split_on d s) [].
-Definition before_last (d : ascii) (s : bytes) : bytes := join d (removelast (split_on d s)).
-
-Definition auth_stop c := Ascii.eqb c "/" || Ascii.eqb c "?" || Ascii.eqb c "#".
-
-Definition host_of_authority (a : bytes) : bytes :=
-  let hp := after_last "@" a in
-  if Ascii.eqb (last hp "x") "]" then hp
-  else if contains ":" hp then before_last ":" hp else hp.
-
-(* scheme-stripped text of an http(s) URL *)
-Definition web_rest (o : bytes) : option bytes :=
-  if starts_with (bs "http://") o then Some (skipn 7 o)
-  else if starts_with (bs "https://") o then Some (skipn 8 o) else None.
-
-(* accepted result: http(s)://authority/path[?query], dotted non-loopback host, no fragment,
-   no dot segment *)
-Definition shape_text (o : bytes) : bool :=
-  match web_rest o with
-  | None => false
-  | Some r =>
-    let (a, tail) := span_until auth_stop r in
-    let host := host_of_authority a in
-    let (path, _) := span_until (fun c => Ascii.eqb c "?") tail in
-    negb (bytes_eqb host (bs "localhost")) && negb (bytes_eqb host (bs "127.0.0.1"))
-    && contains "." host
-    && negb (contains "#" o)
-    && starts_with (bs "/") tail
-    && forallb (fun s => negb (dotseg s)) (split_on "/" path)
-  end.
-
 Definition obs_texts (l : list obs) : list bytes :=
   flat_map (fun o => match o with OOk t => [t] | _ => [] end) l.
 
@@ -137,20 +98,6 @@ Definition obs_texts (l : list obs) : list bytes :=
 Definition mon_shape (c : ucase) : bool :=
   forallb shape_text (obs_texts (c_outs c ++ match c_again c with Some o => [o] | None => [] end))
   && negb (existsb (obs_eqb OPanic) (c_outs c)).
-
-(* the raw query of a URL text: between the first '?' and the first '#', when the '?' comes
-   first *)
-Definition text_query (s : bytes) : option bytes :=
-  let (_, r) := span_until (fun c => Ascii.eqb c "?" || Ascii.eqb c "#") s in
-  match r with
-  | c :: r' => if Ascii.eqb c "?" then Some (fst (span_until (fun c => Ascii.eqb c "#") r')) else None
-  | [] => None
-  end.
-
-Definition visible c := (33 <=? N_of_ascii c)%N && (N_of_ascii c <=? 126)%N.
-Definition pieces (q : bytes) : list bytes := filter nonempty (split_on "&" q).
-(* a well-formed query: visible ASCII, every non-empty piece a well-formed parameter *)
-Definition wf_query_text (q : bytes) : bool := forallb visible q && forallb wf_seg (pieces q).
 
 Fixpoint pairs_eqb (x y : list pair) : bool :=
   match x, y with
@@ -173,22 +120,6 @@ Definition mon_query (c : ucase) : bool :=
 
 (* 4: a reference without scheme and authority keeps the parent's scheme and whole authority
    (credentials, host, port).  Text level: the reference is recognised by its first bytes. *)
-Definition ref_char c := visible c && negb (Ascii.eqb c "\") && negb (is_quote c).
-Definition is_local_ref (t : bytes) : bool :=
-  forallb ref_char t &&
-  match t with
-  | [] => false
-  | c :: r =>
-    if Ascii.eqb c "/" then negb (starts_with (bs "/") r)
-    else if Ascii.eqb c "?" || Ascii.eqb c "#" then true
-    else (* path-relative: no ':' before the first '/', '?' or '#' *)
-      negb (contains ":" (fst (span_until auth_stop t)))
-  end.
-(* "scheme://authority" of an absolute URL text *)
-Definition origin_text (o : bytes) : bytes :=
-  let (s, r) := span_until (fun c => Ascii.eqb c ":") o in
-  s ++ firstn 3 r ++ fst (span_until auth_stop (skipn 3 r)).
-
 Definition mon_authority (c : ucase) : bool :=
   match c_pcanon c, c_outs c with
   | Some pc, OOk o :: _ =>
@@ -198,21 +129,6 @@ Definition mon_authority (c : ucase) : bool :=
 
 (* 5: a path-relative reference without dot segments (and made of characters that no parser
    re-encodes) lands in the parent's directory *)
-Definition path_text (o : bytes) : bytes :=
-  match web_rest o with
-  | None => []
-  | Some r => fst (span_until (fun c => Ascii.eqb c "?" || Ascii.eqb c "#") (snd (span_until auth_stop r)))
-  end.
-Definition dir_text (p : bytes) : bytes := before_last "/" p ++ ["/"].
-Definition is_pathrel_nodots (t : bytes) : bool :=
-  is_local_ref t &&
-  match t with
-  | c :: _ =>
-    negb (Ascii.eqb c "/" || Ascii.eqb c "?" || Ascii.eqb c "#")
-    && forallb (fun s => negb (dotseg s) && wf_seg_chars s)
-         (split_on "/" (fst (span_until (fun c => Ascii.eqb c "?" || Ascii.eqb c "#") t)))
-  | [] => false
-  end.
 Definition mon_directory (c : ucase) : bool :=
   match c_pcanon c, c_outs c with
   | Some pc, OOk o :: _ =>
